@@ -184,7 +184,9 @@ func genNode(r *rand.Rand, name string) *corev1.Node {
 	case 3:
 		taints = append(taints, corev1.Taint{Key: "draining", Value: "x", Effect: corev1.TaintEffectNoExecute})
 	}
-	return kit.Node(name, l, taints...)
+	nd := kit.Node(name, l, taints...)
+	nd.Status.Conditions = []corev1.NodeCondition{{Type: corev1.NodeReady, Status: corev1.ConditionTrue}}
+	return nd
 }
 
 func genStrategy(r *rand.Rand, p Profile) (v1.ExtendedDaemonSetSpecStrategy, string) {
@@ -599,6 +601,24 @@ func (e *Sim) actionFrom(w *World, r *rand.Rand, ns, name string, sh shape, edit
 				}
 				t.Spec.Containers[0].Env = env
 			}
+			if r.Intn(14) == 0 && !p.MultiEDS {
+				// instead of editing it, the user deletes the ExtendedDaemonSet (its replica sets, pods and PodTemplate are
+				// garbage-collected) and creates it again under the same name with the new template: a new object, new uid,
+				// generation 1 again - nothing the controller process remembers about the old one applies to it
+				if old := kit.GetEDS(w.S, ns, name); old != nil && old.DeletionTimestamp == nil {
+					fresh := &v1.ExtendedDaemonSet{ObjectMeta: metav1.ObjectMeta{Namespace: ns, Name: name, Labels: old.Labels}}
+					fresh.Spec = *old.Spec.DeepCopy()
+					fresh.Spec.Template = t
+					w.DeleteEDSCascade(ns, name)
+					if len(w.EDSKeys) > 0 {
+						w.EDSKeys = w.EDSKeys[:len(w.EDSKeys)-1]
+					}
+					w.CreateEDS(fresh)
+					w.Mon.OnTemplateEdit(ns, name)
+					edits[k]++
+					return
+				}
+			}
 			if r.Intn(5) == 0 {
 				// the user takes the edit back while its canary is in flight: spec.template is the active template again
 				if inProgress, active, _ := w.CanaryInProgress(ns, name); inProgress && active != nil {
@@ -791,7 +811,17 @@ func (e *Sim) actionFrom(w *World, r *rand.Rand, ns, name string, sh shape, edit
 		}},
 		{p.Overrides, func() { w.overridesAction(r, ns, name) }},
 		{p.Churn, func() {
-			switch r.Intn(6) {
+			switch r.Intn(7) {
+			case 6:
+				// the node's own Ready condition changes (its kubelet stops posting, or posts NotReady) while the pods on it
+				// keep their Ready condition: node health is not an input of this controller
+				n := pickNode()
+				if n != "" {
+					st := []corev1.ConditionStatus{corev1.ConditionUnknown, corev1.ConditionFalse, corev1.ConditionTrue}[r.Intn(3)]
+					w.MutateNode(n, "Ready="+string(st), func(nd *corev1.Node) {
+						nd.Status.Conditions = []corev1.NodeCondition{{Type: corev1.NodeReady, Status: st, LastTransitionTime: metav1.NewTime(w.Now())}}
+					})
+				}
 			case 5:
 				// the node is being deleted but a finalizer keeps it: it is still there, still schedulable
 				n := pickNode()
@@ -862,6 +892,15 @@ func (e *Sim) actionFrom(w *World, r *rand.Rand, ns, name string, sh shape, edit
 			}
 			w.S.Remove(simapi.KindDS, ns, old)
 			w.tracef("user: delete the old DaemonSet %s/%s with --cascade=orphan (annotation kept)", ns, old)
+		}},
+		{map[bool]float64{true: 0.4, false: 0}[p.MultiEDS], func() {
+			// the PodTemplate of this ExtendedDaemonSet is restored from an export (kubectl apply of a saved manifest):
+			// same content, same hash annotation, ownerReferences stripped - still this ExtendedDaemonSet's and nobody else's
+			if w.S.Peek(simapi.KindPodTpl, ns, name) == nil {
+				return
+			}
+			w.S.Mutate(simapi.KindPodTpl, ns, name, func(o client.Object) { o.SetOwnerReferences(nil) })
+			w.tracef("user: PodTemplate %s/%s restored from an export (ownerReferences stripped)", ns, name)
 		}},
 		{0.08, func() {
 			// the ExtendedDaemonSet is deleted in the foreground and something holds the finalizer: the object,
